@@ -233,7 +233,14 @@ def _shard_worker(args: Tuple[str, str, str, int, int, int]) -> dict:
         r["seconds"] = time.time() - t0
         return r
     except BaseException as e:  # harness error
-        return {"harness_error": "".join(traceback.format_exception(type(e), e, e.__traceback__))[-6000:], "stats": Stats().to_dict()}
+        try:
+            # (Hypothesis attaches the falsifying example as a note: a repr of up to a megabyte that would push the
+            # exception itself out of the report)
+            e.__notes__ = [str(n)[:400] for n in getattr(e, "__notes__", [])]
+        except Exception:
+            pass
+        text = f"{type(e).__name__}: {str(e)[:1500]}\n" + "".join(traceback.format_exception(type(e), e, e.__traceback__))[-6000:]
+        return {"harness_error": text, "stats": Stats().to_dict()}
     finally:
         env.cleanup_now()
 
